@@ -8,7 +8,7 @@ macro "bits16" : tactic => `(tactic|
    intro i hi
    rcases (by omega : i = 0 ∨ i = 1 ∨ i = 2 ∨ i = 3 ∨ i = 4 ∨ i = 5 ∨ i = 6 ∨ i = 7 ∨ i = 8 ∨ i = 9 ∨ i = 10 ∨
       i = 11 ∨ i = 12 ∨ i = 13 ∨ i = 14 ∨ i = 15) with h|h|h|h|h|h|h|h|h|h|h|h|h|h|h|h <;> subst h <;>
-    simp [BitVec.getLsbD_and, BitVec.getLsbD_or, BitVec.getLsbD_not, BitVec.getLsbD_ofNat]))
+    simp [BitVec.getLsbD_and, BitVec.getLsbD_or, BitVec.getLsbD_not, BitVec.getLsbD_ofNat, BitVec.getLsbD_ushiftRight, BitVec.getLsbD_shiftLeft]))
 
 example (p : W) : (p &&& 0xFFF8 ||| 4) &&& 7 = 4 := by bits16
 example (p : W) : (p &&& 0xFFF8 ||| 2) &&& 0xFFF8 = p &&& 0xFFF8 := by bits16
